@@ -100,6 +100,9 @@ class LinkRig:
         self.trace: list[dict] = []
         self.nid = 0
         self.npl = 100
+        self.held_h = None           # stalled copy of a duplicated frame on its way to the host / to the NCP
+        self.held_n = None
+        self.age_h = self.age_n = 0  # frames that overtook the copy
 
     def _host_event(self, hev, ev):
         # hev: event recorded by HostRig (out, t); move host writes to the line
@@ -128,15 +131,9 @@ class LinkRig:
         self.npl += 1
         self._ncp_event(self.ncp.submit(self.npl), {"a": "nsubmit", "pl": self.npl})
 
-    async def tohost(self, fault, late=False):
-        if not self.n2h:
-            return False
-        f = self.n2h[0]
-        if fault != "dup":
-            self.n2h.popleft()
-        if fault == "drop":
-            self.trace.append({"a": "tohost", "fault": "drop", "late": 0, "out": [], "t": self.loop.ms})
-            return True
+    HOLD_SPAN = 2
+
+    async def _deliver_raw_to_host(self, f, fault, late, ev):
         g = dict(f)
         if g["type"] == "DATA":
             g["pl"] = list(ncp_payload(f["pl"]))
@@ -147,15 +144,57 @@ class LinkRig:
                 raw[0] ^= 0x01
         late = bool(late and self.host.next_timer() is not None)
         hev = await self.host.recv([], late=late, raw=bytes(raw))
-        self._host_event(hev, {"a": "tohost", "fault": fault, "late": 1 if late else 0})
+        ev["late"] = 1 if late else 0
+        self._host_event(hev, ev)
+
+    async def hrelease(self):
+        if self.held_h is None:
+            return False
+        f, self.held_h, self.age_h = self.held_h, None, 0
+        await self._deliver_raw_to_host(f, "deliver", False, {"a": "hrelease"})
+        return True
+
+    def nrelease(self):
+        if self.held_n is None:
+            return False
+        f, self.held_n, self.age_n = self.held_n, None, 0
+        self._ncp_event(self.ncp.recv(f), {"a": "nrelease"})
+        return True
+
+    async def tohost(self, fault, late=False):
+        if not self.n2h:
+            return False
+        if self.held_h is not None and self.age_h >= self.HOLD_SPAN:
+            await self.hrelease()            # a stalled copy is overtaken by at most HOLD_SPAN frames
+        if fault == "hold" and self.held_h is not None:
+            fault = "deliver"
+        f = self.n2h[0]
+        if fault != "dup":
+            self.n2h.popleft()
+        if self.held_h is not None and fault != "dup":
+            self.age_h += 1
+        if fault == "drop":
+            self.trace.append({"a": "tohost", "fault": "drop", "late": 0, "out": [], "t": self.loop.ms})
+            return True
+        if fault == "hold":
+            self.held_h, self.age_h = dict(f), 0
+        await self._deliver_raw_to_host(f, fault, late, {"a": "tohost", "fault": fault})
         return True
 
     def toncp(self, fault):
         if not self.h2n:
             return False
+        if self.held_n is not None and self.age_n >= self.HOLD_SPAN:
+            self.nrelease()
+        if fault == "hold" and self.held_n is not None:
+            fault = "deliver"
         f = self.h2n[0]
         if fault != "dup":
             self.h2n.popleft()
+        if self.held_n is not None and fault != "dup":
+            self.age_n += 1
+        if fault == "hold":
+            self.held_n, self.age_n = dict(f), 0
         if fault == "drop":
             self.trace.append({"a": "toncp", "fault": "drop", "out": [], "t": self.loop.ms})
             return True
@@ -191,7 +230,11 @@ class LinkRig:
     async def drain(self, limit=400):
         """fault-free service until everything ended"""
         for _ in range(limit):
-            if self.h2n:
+            if self.held_n is not None:
+                self.nrelease()
+            elif self.held_h is not None:
+                await self.hrelease()
+            elif self.h2n:
                 self.toncp("deliver")
             elif self.n2h:
                 await self.tohost("deliver")
@@ -230,6 +273,10 @@ def run_link(args):
                 rig.ntick()
             elif k == "hcancel":
                 await rig.hcancel(st[1])
+            elif k == "hrelease":
+                await rig.hrelease()
+            elif k == "nrelease":
+                rig.nrelease()
         await rig.drain()
         return rig.trace
     return vloop.run(main)
